@@ -375,6 +375,11 @@ func tokenize(s string) []string {
 // Solve runs the portfolio: solvers[0] first, the rest after `stagger` without an answer.
 // unsat wins if no back end says sat; sat wins; an (error line is inconclusive for that back end.
 func Solve(script string, vars []*Term, timeout time.Duration, solvers []string) SolveResult {
+	return SolveC(script, vars, timeout, solvers, nil)
+}
+
+// SolveC: as Solve, with an external cancellation channel.
+func SolveC(script string, vars []*Term, timeout time.Duration, solvers []string, ext <-chan struct{}) SolveResult {
 	atomic.AddInt64(&statQueries, 1)
 	if dumpDir != "" {
 		n := atomic.AddInt64(&dumpCounter, 1)
@@ -427,6 +432,9 @@ func Solve(script string, vars []*Term, timeout time.Duration, solvers []string)
 				launched++
 			}
 			timer = nil
+		case <-ext:
+			close(cancel)
+			return SolveResult{Status: "unknown", Err: "cancelled"}
 		}
 	}
 	close(cancel)
